@@ -399,6 +399,9 @@ func (r *runner) scenario(ctx context.Context, rnd *hx.Rand) error {
 			ts := int64(now) + int64(rnd.Intn(6)) - 2
 			tsPool = append(tsPool, ts)
 			eon := int64(rnd.Intn(nsets))
+			if rnd.Chance(8) { // a keyper set index that differs from an existing one in its upper half only
+				eon += int64(1+rnd.Intn(3)) << 32
+			}
 			identity := crypto.Keccak256(append(append([]byte{}, prefix...), sender.Bytes()...))
 			pre := n.db().Clone().(*kdb.DB)
 			_, err := sdb.InsertIdentityRegisteredEvent(ctx, servicedatabase.InsertIdentityRegisteredEventParams{BlockNumber: number, BlockHash: []byte{1}, TxIndex: int64(i), LogIndex: 0,
@@ -418,6 +421,9 @@ func (r *runner) scenario(ctx context.Context, rnd *hx.Rand) error {
 			prefix, sender := rnd.Bytes(32), common.BytesToAddress(rnd.Bytes(20))
 			identity := crypto.Keccak256(append(append([]byte{}, prefix...), sender.Bytes()...))
 			eon := int64(rnd.Intn(nsets))
+			if rnd.Chance(8) {
+				eon += int64(1+rnd.Intn(3)) << 32
+			}
 			_, err := sdb.InsertEventTriggerRegisteredEvent(ctx, servicedatabase.InsertEventTriggerRegisteredEventParams{BlockNumber: number, BlockHash: []byte{1}, TxIndex: int64(i),
 				Eon: eon, IdentityPrefix: prefix, Sender: shdb.EncodeAddress(sender), Definition: []byte{1}, ExpirationBlockNumber: number + 5, Identity: identity})
 			if err != nil {
